@@ -110,7 +110,7 @@ func hasEvent(evs []string, want string) bool {
 }
 
 func runC16(e *Env) {
-	e.Rule = "ALL 256 controller types (128 subsets of {Index, Create, Store, Show, Edit, Update, Delete} x with/without Uses(); Uses() returns a marker middleware for every action incl. unimplemented ones) x base paths {/, /api/, /v1/admin/, /{tenant}/, /{tenant:\\d+}/, /V1/Admin/, /api/v1.0/; inside a group also the empty string, api/, v1/admin/} x inside/outside a Group (single group, nested groups 2+1 middleware, 3 middleware passed to Resource itself: slices with spare capacity), registered on fresh routers several times (every third plain case mounts the same controller type a second time under /second/ on the same router and checks both mounts) (map iteration inside Resource is random), HandleMethodNotAllowed on, cache on/off, a seventh with HandleFallbackRoute and Any(\"/*\"). Observed: Router.Routes() as (method, path, name) triples, NamedRoutes(), and the answers to 9 methods + 4 method tokens that are not upper case (get, Post, delete, head) x {/res, /res/, /res/create, /res/7, /res/abc-1, /res/create/edit, /res/7/edit, /res/abc-1/edit, /res/7/x, /res/edit, /other, and three of them with trailing non-ASCII white space}: answering action + id, marker middleware seen, 405 + Allow set, 404. Oracle: the documented seven-row table filtered by the subset (+ the C06 resolution order). Resource(base, T{}) and Resource(base, &string) must panic. Non-trivial: every (type, base, group) combination; distinct by it. Every controller instance carries a tag that its actions report (the answering action must belong to the instance given to that Resource call); Uses() maps also contain keys that are no action names (case variants, empty, unknown) whose middleware must never run. Two fifths of the grouped cases call Use() 2..3 times in the group body before mounting the resource (the group's list then has spare capacity). All marker middleware (group, Resource, Uses) are closures of one function literal."
+	e.Rule = "ALL 256 controller types (128 subsets of {Index, Create, Store, Show, Edit, Update, Delete} x with/without Uses(); Uses() returns a marker middleware for every action incl. unimplemented ones) x base paths {/, /api/, /v1/admin/, /{tenant}/, /{tenant:\\d+}/, /V1/Admin/, /api/v1.0/; inside a group also the empty string, api/, v1/admin/} x inside/outside a Group (single group, nested groups 2+1 middleware, 3 middleware passed to Resource itself: slices with spare capacity), registered on fresh routers several times (every third plain case mounts the same controller type a second time under /second/ on the same router and checks both mounts) (map iteration inside Resource is random), HandleMethodNotAllowed on, cache on/off, a seventh with HandleFallbackRoute and Any(\"/*\"). Observed: Router.Routes() as (method, path, name) triples, NamedRoutes(), and the answers to 9 methods + 4 method tokens that are not upper case (get, Post, delete, head) x {/res, /res/, /res/create, /res/7, /res/abc-1, /res/create/edit, /res/7/edit, /res/abc-1/edit, /res/7/x, /res/edit, /other, and three of them with trailing non-ASCII white space}: answering action + id, marker middleware seen, 405 + Allow set, 404. Oracle: the documented seven-row table filtered by the subset (+ the C06 resolution order). Resource(base, T{}) and Resource(base, &string) must panic. Non-trivial: every (type, base, group) combination; distinct by it. Every controller instance carries a tag that its actions report (the answering action must belong to the instance given to that Resource call); Uses() maps also contain keys that are no action names (case variants, empty, unknown) whose middleware must never run. Two fifths of the grouped cases call Use() 2..3 times in the group body before mounting the resource (the group's list then has spare capacity). All marker middleware (group, Resource, Uses) are closures of one function literal. Half of the variable-base cases also register unrelated variable routes whose literal first node is the value the requests use for {tenant}."
 	e.Assumptions = []string{
 		"non-strict mode (the documented table is the non-strict one); base paths end in '/' as documented",
 	}
@@ -226,6 +226,15 @@ func runC16(e *Env) {
 				wantGroupEv = append(wantGroupEv, "gmw:"+id)
 			}
 		}
+		tenantSibling := strings.HasPrefix(base, "/{tenant") && t.Idx%2 == 0
+		if tenantSibling {
+			// unrelated routes with variables whose literal first node is the very value the requests use for
+			// {tenant}: they never fit a resource URL, the resource below the variable answers as before
+			for _, first := range []string{"acme", "42"} {
+				router.Any("/"+first+"/{x}/sibling-of-the-tenant-routes", func(c *rux.Context) { c.WriteString("sibling") })
+			}
+			t.Count("resource.tenant_value_is_first_node_of_other_routes", 1)
+		}
 		if pv, panicked := catch(reg); panicked {
 			t.Fail("resource-panics", "Resource(%q, &%s{}) panicked: %v", base, ct.Name, pv)
 			return
@@ -245,6 +254,12 @@ func runC16(e *Env) {
 		if fallbackOn {
 			for _, m := range AllMethods {
 				wantTriples[m+" /* "] = true
+			}
+		}
+		if tenantSibling {
+			for _, m := range AllMethods {
+				wantTriples[m+" /acme/{x}/sibling-of-the-tenant-routes "] = true
+				wantTriples[m+" /42/{x}/sibling-of-the-tenant-routes "] = true
 			}
 		}
 		mounts := []string{full}
